@@ -159,12 +159,40 @@ T = {
              "narrowing the exponent of a scaled_integer over a multi-limb wide_integer by 63, 95, 127, ... (divisor 2^k whose top limb is 0x80000000), |rep| >= 2^(k+1)", ["C04", "C10", "C02"]),
  "M-C01-5": ("C01", "generic eval_multiply_n_by_n_to_lo_part: the outer loop stops one row early, dropping a[count-1]*b[0] (ckormanyos/uintwide_t.h)",
              "scaled_integer over a multi-limb wide_integer (any limb count but 4) with a negative rep (or one using the top limb): a*b, and a+b / a-b with different exponents (alignment multiplies)", ["C01", "C10"]),
+ "M-C08-5": ("C08", "tie_to_pos_inf divide: step2 de-templated, so the negated operands of the negative-divisor branch are narrowed back to Lhs / Rhs (rounding/tie_to_pos_inf_rounding_tag.h)",
+             "tie_to_pos_inf, negative divisor, 8/16-bit operands whose negation does not fit the operand type (int8 -128 / -3, uint8 200 / int8 -3)", ["C08", "C11"]),
+ "M-C13-5": ("C13", "to_chars_positive accepts a scientific layout with zero significand digits (>= 0 instead of > 0) (scaled_integer/to_chars.h)",
+             "tiny scaled_integer value, buffer of exactly sign + 2 + exponent characters: fill(scientific) copies a reversed range (wild write)", ["C13", "C14"]),
+ "M-C06-5": ("C06", "is_overflow<add_op, positive>: std::min instead of std::max of the operands' digits in the can-it-overflow-at-all test (overflow/is_overflow.h)",
+             "Clang builds (portable path), + with operands of different width, exact sum above the result type's maximum: uint8 1 + uint32 4294967295 saturates to 0", ["C06", "C07", "C12"]),
+ "M-C09-5": ("C09", "neg_inf floating -> integer conversion: the sign guard of the floor correction tests the truncated value instead of the source (rounding/convert_operator.h)",
+             "neg_inf_rounding_tag, floating source strictly inside (-1, 0): convert<neg_inf, int>(-0.5) == 0", ["C09", "C08"]),
+ "M-C15-5": ("C15", "make_scale_op_chunk for base 2 scales by 2^64 instead of 2^63 between 63-digit chunks (parse.h)",
+             "binary literal with at least 64 digits: 0b1 followed by 63 zeros parses as 2^64", ["C15"]),
+ "M-C14-5": ("C14", "itoc: value <= 10 instead of < 10, so digit ten prints as ':' (charconv/to_chars.h)",
+             "integer to_chars / to_chars_static with base >= 11 and a digit ten in the numeral: to_chars(10, base 16) == \":\"", ["C14", "C13"]),
+ "M-C02-5": ("C02", "elastic binary operator: operands cast to a type holding the result and the RIGHT operand only; the dividend of % is truncated (elastic_tag/custom_operator.h)",
+             "elastic_scaled_integer % with a dividend that needs a wider machine type than the remainder (40 digits % 7 digits; 12 % 3 digits over int8_t)", ["C02", "C05"]),
+ "M-C07-5": ("C07", "is_overflow<multiply_op, positive>: rhs >= 0 instead of rhs > 0 in front of max() / rhs: the predicate divides by zero (overflow/is_overflow.h)",
+             "portable path (Clang builds, or class-type reps under GCC), non-widening product, lhs > 0 and rhs == 0", ["C07", "C06"]),
+ "M-C05-5": ("C05", "policy<modulo_op>: is_signed = LhsIsSigned (the same edit as M-C02-2, proposed independently for C05) (elastic_tag/policy.h)",
+             "unsigned elastic dividend, signed divisor with a negative value", ["C05", "C02"]),
+ "M-C11-5": ("C11", "postfix ++ / -- of the overflow layer re-dispatch += 1 with the default (native) tag instead of the overflow tag (overflow/custom_operator.h)",
+             "x++ at max() or x-- at lowest() of a static_integer / overflow_integer: 7++ == 8 under saturated, no exception under throwing", ["C11", "C06", "C07", "C12"]),
+ "M-C19-5": ("C19", "integer sqrt start bit computed from width<Integer> - 2 instead of digits - 1: two bits too low for unsigned types with an odd digit count (cmath/sqrt.h)",
+             "unsigned integer type with an odd digit count (wide_integer<7, unsigned>, elastic / static over it), operand in the upper half of the range: sqrt(64..127) == 7", ["C19"]),
+ "M-C18-5": ("C18", "countl_rsb(long long) calls __builtin_clrsb instead of __builtin_clrsbll: only the low 32 bits are counted (bit.h, GCC specialisation)",
+             "GCC configuration, T exactly long long (int64_t is long here): countl_rsb / countl_rb / countr_used of any value", ["C18"]),
 }
 
 
 # id -> what happened when the change was first run against the checks, and what was strengthened because of it
 HIST = {
  "M-C10-2": "missed at first (limb arithmetic was declared undecided): the limb algebra (vlib/limbalg.py) was written for it; C10 now re-expresses + - * unary- ++ -- << >> of 8 (q) / 70 multi-limb instantiations as integer polynomials over the limbs and reports this change with a counterexample on the fast path (b2 == 0, b3 != 0)",
+ "M-C09-5": "missed at first (floating-point value semantics were declared undecided): the floor step of the floating -> integer conversions is now an EQ obligation (kernel == t - [x < t], t = trunc x) resting on two facts about truncation the normaliser knows; the first version of the rule raised a false alarm on the stored refactors E-C09-1/3, corrected before it was committed",
+ "M-C02-5": "missed at first by C02 (reported by C05's operand-widening kernels): elastic / and % kernels whose dividend needs a wider machine type than the remainder added to C02",
+ "M-C11-5": "missed at first: no check had ++ / -- of the overflow layer; prefix and postfix increment / decrement lines added to C06 and C07 (C11 establishes the layering and leaves each layer's operators to its owner)",
+ "M-C05-5": "identical to M-C02-2 (proposed independently): reported by C05 and C02",
  "M-C10-3": "reported by the limb algebra (shl by W-1 on the 512-bit instantiation: counterexample)",
  "M-C04-5": "NOT reported: inside Knuth's division, whose magnitudes are the one part of the limb arithmetic the limb algebra does not decide (data-dependent trip counts, a correctness argument that is not a telescoping identity); only the sign discipline of / and % is decided",
  "M-C01-5": "reported by the multi-limb block of C01 (added with the limb algebra) and by C10's multiplication obligations",
@@ -243,6 +271,8 @@ E = {
  "E-C10-2": "uintwide_t.h: widening converting constructor through `(!neg) ? v : -v` and one copy/fill/negate; signed compare as `my_is_neg != other_is_neg` with a conditional result; right_shift_fill_value as if/return",
  "E-C20-1": "math.h: the requires-dispatched overload pairs of exp2m1_0to1 and fractional folded into one template each with if constexpr",
  "E-C20-2": "numbers.h: pi() with a hoisted n_plus_2 and n for n + 0L; constant_with_fallback ?: -> early-return if with the negated test, locals regrouped",
+ "E-C10-3": "wide_tag / wide_integer glue: wide_tag_rep as a constexpr function returning type_identity (if constexpr), named rep_result before the cast, to_rep operands bound to const references, `|` -> `||`",
+ "E-C01-4": "num_traits/scale.h default_scale: two requires-specialisations -> one template with if constexpr; binary_operator.h alignment constants without std::min; convert_operator.h hoisted from_value result",
  "E-C02-2": "named.h: result-type computation of quotient extracted into a traits class, std::max written out",
  "E-C04-2": "convert_operator.h: cross-radix steps through a mutate-in-place helper `rescale`, same-radix path through named locals",
  "E-C05-2": "elastic_integer/custom_operator.h: `|` -> `||`, aliases for result types, hoisted locals in bitwise_not and the comparison",
